@@ -431,6 +431,9 @@ pub fn run(ctx: &Ctx) {
     // 2. small scope: every separator × every curated opening of D, on a fixed first paragraph
     let openings = [
         "\n", "\n\n", " ", "\t", "1", "12th", "@", ":", "a", "the the", "\"", "“q”", "'", ".", ",", "!", "-", "[a-z]", "0x1F", "1980s", "e.g.", "et al.", "etc.", "I", "i",
+        // openings that rules look BEHIND from (a rule that slides a window over the whole document sees the
+        // previous paragraph's break / terminator as the token before these)
+        "$ 20 ", "20 $ ", "€ 5 ", "5 € ", "£5 ", "5 % ", "# 5 ", "— ", "… ", ") ", "( ", ", ", "; ", "of ", "and ", "to ", "an ", "a ", "than ", "then ", "it's ", "its ", "there ", "their ",
     ];
     for sep in ["\n\n", "\n\n\n", " \n\n", "\t\n\n", "\n\n\n\n"] {
         for o in openings {
